@@ -132,6 +132,8 @@ fn replay(sink: &mut common::Sink, toks: &[&str]) {
         #[cfg(feature = "rv")]
         "rawtop" | "rawstr" | "rawelems" => c19::replay(sink, toks),
         #[cfg(feature = "rv")]
+        "rawseq" => c19::replay(sink, toks),
+        #[cfg(feature = "rv")]
         "rawfld" | "rawconv" => c19b::replay(sink, toks),
         "esc" | "escbufs" | "hex4" | "hex4s" | "scan" => c05::replay(sink, toks),
         "bytesctl" => c05::replay(sink, toks),
